@@ -455,6 +455,14 @@ func attemptEIO(rxs *wireEnv, fam string, sizes, caps []int, sticky, partial boo
 	if (fam == "v4" && !tx4) || (fam == "v6" && !tx6) {
 		return nil, -1, false, "", "tx offload (UDP_SEGMENT) not available for " + fam
 	}
+	if partial {
+		// "the kernel sends the messages in front and then reports EIO" needs a lone
+		// datagram in front of a merged message; other batches say nothing here
+		m, _ := buildVector(fam, 9, sizes, caps, sticky, true, 0)
+		if len(m) == len(sizes) || len(m) == 0 || len(m[0].Buffers[0]) != sizes[0] || sizes[0] == 0 {
+			return []int{}, -1, false, "", ""
+		}
+	}
 	var fail, part atomic.Int32
 	if err := conn.VerifWrapPacketConn(a, fam == "v6", func(c *net.UDPConn) net.PacketConn {
 		return &eioConn{UDPConn: c, fail: &fail, partial: &part, v6: fam == "v6"}
@@ -500,6 +508,9 @@ func attemptEIO(rxs *wireEnv, fam string, sizes, caps []int, sticky, partial boo
 		fail.Store(1)
 	}
 	err = a.Send(bufs, ep)
+	if os.Getenv("C18_DEBUG") != "" {
+		fmt.Fprintf(os.Stderr, "eio %s partial=%v part=%d fail=%d err=%v\n", fam, partial, part.Load(), fail.Load(), err)
+	}
 	var ge conn.ErrUDPGSODisabled
 	switch {
 	case partial && part.Load() == 2 && err == nil:
@@ -566,7 +577,7 @@ func eioBatches(seed int64, count int) []lbBatch {
 // eioPartialBatches: the merged form begins with lone datagrams, a merged run follows.
 func eioPartialBatches(seed int64, count int) []lbBatch {
 	r := rand.New(rand.NewSource(seed*49979687 + 13))
-	fixed := [][]int{{500, 1000, 1000}, {100, 200, 300, 300}, {1452, 148, 148, 148}, {32, 1452, 1452, 1452, 92}, {9, 10, 11, 400, 400}}
+	fixed := [][]int{{500, 1000, 1000}, {100, 200, 300, 300}, {148, 1452, 1452, 1452}, {32, 1452, 1452, 1452, 92}, {9, 10, 11, 400, 400}}
 	var out []lbBatch
 	for len(out) < count {
 		var sizes []int
